@@ -164,6 +164,12 @@ pub fn gen_node(r: &mut Rng, tier: &str, rooms: u8, nondyadic: bool, name: &'sta
             if rooms == 2 && i % 20 == 9 {
                 inst = gen::gen_room_cancel_twice(r);
             }
+            if rooms == 2 && i % 20 == 19 {
+                inst = gen::gen_freed_instructor_room_bound(r);
+            }
+            if i % 130 == 77 {
+                inst = gen::gen_big_min_course(r);
+            }
             Case { stream: name, data: json!({"inst": inst.to_json(), "max_nodes": if big { 120 } else { 60 }}) }
         })
         .collect()
@@ -349,6 +355,12 @@ pub fn gen_solve(r: &mut Rng, tier: &str, rooms: u8, name: &'static str) -> Vec<
             }
             if rooms == 2 && i % 20 == 5 {
                 inst = gen::gen_room_cancel_twice(r);
+            }
+            if rooms == 2 && i % 20 == 9 {
+                inst = gen::gen_freed_instructor_room_bound(r);
+            }
+            if i % 150 == 77 {
+                inst = gen::gen_big_min_course(r);
             }
             let mut small = small && inst.parts.len() <= 7 && inst.courses.len() <= 4;
             if rooms == 2 && i % 10 == 1 {
@@ -851,8 +863,13 @@ pub fn run_rooms(data: &Value) -> Vec<Line> {
         // rooms file: kinds with capacity = room size; duplicates merged into quantity; optionally a
         // kind with quantity 0 sharing a capacity
         let mut kinds: Vec<Value> = vec![];
-        let style = data["shuffle"].as_u64().unwrap() % 3;
-        if style == 0 {
+        let style = data["shuffle"].as_u64().unwrap() % 4;
+        if style == 3 {
+            // two buildings both have a "Seminarraum": the same NAME with different capacities
+            for (i, r) in rooms.iter().enumerate() {
+                kinds.push(json!({"name": format!("S{}", i % 2), "capacity": r, "quantity": 1}));
+            }
+        } else if style == 0 {
             // one kind per room, some with spare quantity
             for (i, r) in rooms.iter().enumerate() {
                 kinds.push(json!({"name": format!("K{}", i), "capacity": r, "quantity": 1 + (i % 2)}));
